@@ -20,6 +20,7 @@ import (
 	"syscall"
 	"time"
 
+	"verif.local/h/batch"
 	"verif.local/h/ev"
 )
 
@@ -65,6 +66,10 @@ func run(dir string, env []string, name string, args ...string) (string, error) 
 }
 
 func main() {
+	if len(os.Args) >= 2 && os.Args[1] == "mkreplay" {
+		mkreplay(os.Args[2:])
+		return
+	}
 	if len(os.Args) < 3 {
 		fmt.Fprintln(os.Stderr, "usage: verif <ID> <quick|thorough> [--replay file]")
 		os.Exit(2)
@@ -79,6 +84,11 @@ func main() {
 		if os.Args[i] == "--replay" && i+1 < len(os.Args) {
 			replay = os.Args[i+1]
 			i++
+		}
+	}
+	if replay != "" {
+		if a, err := filepath.Abs(replay); err == nil {
+			replay = a
 		}
 	}
 	if s := os.Getenv("VERIF_SEED"); s != "" {
@@ -162,7 +172,7 @@ func loadKnown() []knownFinding {
 func knownClasses(prop string) []string {
 	var out []string
 	for _, k := range loadKnown() {
-		if k.Status == "known" && k.Class != "" && (k.Property == prop || strings.Contains(","+k.Property+",", ","+prop+",")) {
+		if k.Status == "known" && k.Class != "" && propListed(k.Property, prop) {
 			out = append(out, k.Class)
 		}
 	}
@@ -290,6 +300,8 @@ type check struct {
 	env         []string
 	run         func(c *check, replay string) int
 	race        bool
+	parts       []*part
+	onBatch     func(c *check, p *part, b *batch.Batch, m *merged) string
 }
 
 func (c *check) tier() tierCfg {
@@ -349,6 +361,9 @@ func runSharded(c *check, replay string) int {
 	for _, k := range kfs {
 		if k.Replay != "" && k.Status == "known" {
 			knownByReplay[filepath.Join(verifDir, k.Replay)] = k
+		}
+		if k.Replay != "" && replay == "" && propListed(k.Property, c.id) {
+			replays = appendUnique(replays, filepath.Join(verifDir, k.Replay))
 		}
 	}
 	for i, rp := range replays {
@@ -468,4 +483,17 @@ func lastLines(s string, n int) string {
 
 func indent(s string) string {
 	return "    " + strings.ReplaceAll(s, "\n", "\n    ")
+}
+
+func propListed(list, id string) bool {
+	return strings.Contains(","+list+",", ","+id+",")
+}
+
+func appendUnique(xs []string, x string) []string {
+	for _, y := range xs {
+		if y == x {
+			return xs
+		}
+	}
+	return append(xs, x)
 }
